@@ -57,6 +57,9 @@ def gen_node(seed, tier):
                 for j in range(npk):
                     if j + 1 != lost:
                         ops.append(tp_dt(sender, 255, j + 1, payload[j * 7:(j + 1) * 7]))
+                if lost:
+                    ops.append('T 150')      # the abandoned session keeps its reassembly slot until it is 100 ms old: let it age, so that
+                                             # the messages that follow are within the node's capacity (the oracle assumes they are)
             y = r.random()
             if y < 0.08:
                 # a stray transport data / control frame that belongs to no session: consumed, never delivered
@@ -67,6 +70,7 @@ def gen_node(seed, tier):
                 fr = sender_stream(r, r.choice([129029, 127489]), 95 + k % 3, 255, bytes([k & 255] + [r.randrange(256) for _ in range(r.choice([20, 30]))]))
                 z = r.randrange(1, len(fr))
                 ops += (fr[:z] + fr[z + 1:]) if r.random() < 0.6 else (fr[:z] + [fr[z - 1]] + fr[z:])
+                ops.append('T 150')          # (as above: the broken message's slot ages out)
             if r.random() < 0.1:
                 ops.append('P')
         ops += ['P'] * (3 + nmsg // 8)
